@@ -1,7 +1,9 @@
 import JL.Generated.Fns
+import JL.Lemmas.TieAuto
 /-! tie: `to_string`, as translated from the crate's current source, is the model's function - for every input -/
 namespace JL.Tie
 open JL
+set_option linter.unusedSimpArgs false
 
 /-! equations of the model's `toString` (a mutual structural definition: `simp [JsOp.toString]` is not usable) -/
 theorem toString_obj (kvs) : JsOp.toString (.obj kvs) = "[object Object]".toList := by unfold JsOp.toString; rfl
@@ -13,17 +15,19 @@ theorem toString_str (s) : JsOp.toString (.str s) = s := by unfold JsOp.toString
 theorem toString_arr (xs) : JsOp.toString (.arr xs) = joinWith [','] (JsOp.toStringElems xs) := by
   unfold JsOp.toString; rfl
 
-/-- `Iterator::map` on a vector (rendered with the `Functor` instance of lists) -/
-theorem list_fmap {α β : Type} (f : α → β) (xs : List α) : f <$> xs = List.map f xs := rfl
+/-- the string an array element contributes: nothing for `null` -/
+def elemStr : Json → Str
+  | .null => []
+  | x => JsOp.toString x
 
-/-- the mapped closure of the array arm -/
-private theorem to_string_elems (f : Json → Str) (hnull : f Json.null = []) :
-    ∀ xs : List Json, (∀ x ∈ xs, x ≠ Json.null → f x = JsOp.toString x) → xs.map f = JsOp.toStringElems xs
-  | [], _ => by simp [JsOp.toStringElems]
-  | x :: rest, hf => by
-      have ih := to_string_elems f hnull rest (fun y hy => hf y (List.mem_cons_of_mem _ hy))
-      have hx := hf x List.mem_cons_self
-      cases x <;> simp_all [JsOp.toStringElems]
+theorem toStringElems_eq_map : ∀ xs : List Json, JsOp.toStringElems xs = xs.map elemStr
+  | [] => by simp [JsOp.toStringElems]
+  | x :: rest => by
+      have ih := toStringElems_eq_map rest
+      cases x <;> simp [JsOp.toStringElems, elemStr, ih]
+
+theorem toString_arr' (xs) : JsOp.toString (.arr xs) = joinWith [','] (xs.map elemStr) := by
+  rw [toString_arr, toStringElems_eq_map]
 
 private theorem depth_le_of_mem : ∀ (xs : List Json) (x : Json), x ∈ xs → Json.depth x ≤ Json.depthList xs
   | [], _, h => by simp at h
@@ -33,23 +37,27 @@ private theorem depth_le_of_mem : ∀ (xs : List Json) (x : Json), x ∈ xs → 
       · subst h; omega
       · have := depth_le_of_mem rest x h; omega
 
+/-- `Iterator::map` on a vector (rendered with the `Functor` instance of lists) -/
+theorem list_fmap {α β : Type} (f : α → β) (xs : List α) : f <$> xs = List.map f xs := rfl
+
+/- The array arm: however the code goes over the elements (`iter().map(..)`, a `for` loop pushing into a vector, …), the simp set
+`tie` turns it into `List.map f xs` for the code's per-element function `f`; on the elements of `xs` that function is the model's
+`elemStr` (by the induction hypothesis - the code recurses only on elements), so the two maps agree (`List.map_congr_left`). -/
 theorem to_string_go : ∀ (fuel : Nat) (v : Json), Json.depth v < fuel → Gen.to_string.go fuel v = JsOp.toString v
   | 0, _, h => absurd h (Nat.not_lt_zero _)
   | fuel + 1, v, h => by
       cases v with
       | arr xs =>
-          simp only [Json.depth] at h
-          rw [toString_arr]
-          simp only [Gen.to_string.go, rs, list_fmap]
-          congr 1
-          apply to_string_elems
-          · rfl
-          · intro x hx hne
-            have hd := depth_le_of_mem xs x hx
-            have := to_string_go fuel x (by omega)
-            cases x <;> simp_all
-      | bool b => cases b <;> simp [Gen.to_string.go, toString_true, toString_false, rs]
-      | _ => simp [Gen.to_string.go, toString_obj, toString_null, toString_num, toString_str, rs]
+          have ih : ∀ x ∈ xs, Gen.to_string.go fuel x = JsOp.toString x := fun x hx =>
+            to_string_go fuel x (by have := depth_le_of_mem xs x hx; simp only [Json.depth] at h; omega)
+          simp only [Gen.to_string.go, rs, tie, List.nil_append, List.append_nil]
+          rw [List.map_congr_left (g := elemStr)]
+          · tie_close [toString_arr']
+          · intro x hx
+            have := ih x hx
+            cases x <;> tie_close [elemStr]
+      | bool b => cases b <;> tie_close [Gen.to_string.go, toString_true, toString_false]
+      | _ => tie_close [Gen.to_string.go, toString_obj, toString_null, toString_num, toString_str]
 
 theorem to_string (v : Json) : Gen.to_string v = JsOp.toString v :=
   to_string_go _ v (Nat.lt_succ_self _)
